@@ -270,3 +270,71 @@ func VerifC15_Truncate() {
 	}
 	sym.Observe("got", got)
 }
+
+// VerifC15_MapValue: mapValue for every value of up to 2 bytes: a listed value
+// becomes its target - the empty target included (that is how a field is
+// cleared) -, any other non-empty value becomes the default, an empty field stays empty.
+//
+//verif:reach listed listed-empty default empty
+func VerifC15_MapValue() {
+	def := []string{"?", ""}[sym.Choice("default", 2)]
+	cfg := &tmapvalue.Config{Key: "level", Mapping: map[string]string{"a": "A", "bb": "", "c": "c"}, DefaultValue: def}
+	sym.Assert(cfg.VerifyConfig(verifProgSchema) == nil, "configuration accepted")
+	tf := cfg.NewTransform(verifProgSchema, logger.Root(), nil)
+	v := verifSymField("level", 2, false)
+	rec := verifProgSchema.NewTestRecord1(base.LogFields{"", v, "", ""})
+	sym.Assert(tf.Transform(rec) == base.PASS, "mapValue never drops")
+	got := rec.Fields[1]
+	switch {
+	case v == "":
+		sym.Assert(got == "", "an empty field is left alone")
+		sym.Reach("empty")
+	case v == "a":
+		sym.Assert(got == "A", "a listed value becomes its target")
+		sym.Reach("listed")
+	case v == "bb":
+		sym.Assert(got == "", "a value listed with an empty target is cleared, not defaulted")
+		sym.Reach("listed-empty")
+	case v == "c":
+		sym.Assert(got == "c", "a listed value becomes its target")
+	default:
+		sym.Assert(got == def, "an unlisted value becomes the default")
+		sym.Reach("default")
+	}
+}
+
+// VerifC15_UnescapeOnce: two unescape steps on the same field (a transform
+// followed by a nested one, as a second transform or the output's unescape
+// rewriter would be): the text is unescaped exactly once - for every value of
+// up to 4 bytes with every backslash pattern -, and the record is marked.
+//
+//verif:reach escaped plain
+//verif:paths 100000
+func VerifC15_UnescapeOnce() {
+	prog := []verifTC{
+		{Value: &tunescape.Config{Key: "msg"}},
+		{Value: &tunescape.Config{Key: "msg"}},
+	}
+	sym.Assert(bsupport.VerifyTransformConfigs(prog, verifProgSchema, "prog") == nil, "program verifies")
+	steps := bsupport.NewTransformsFromConfig(prog, verifProgSchema, logger.Root(), &verifCounters{})
+	once := bsupport.NewTransformsFromConfig(prog[:1], verifProgSchema, logger.Root(), &verifCounters{})
+	n := sym.Choice("len", 5)
+	v := sym.String("msg", n, n)
+	bs := false
+	for i := 0; i < n; i++ {
+		if sym.ConcretizeBool(v[i] == '\\') {
+			bs = true
+		}
+	}
+	r1 := verifProgSchema.NewTestRecord1(base.LogFields{"", "", string(append([]byte{}, v...)), ""})
+	r2 := verifProgSchema.NewTestRecord1(base.LogFields{"", "", string(append([]byte{}, v...)), ""})
+	bsupport.RunTransforms(r1, once)
+	bsupport.RunTransforms(r2, steps)
+	sym.Assert(r2.Fields[2] == r1.Fields[2], "a second unescape step leaves the unescaped text alone")
+	sym.Assert(r1.Unescaped && r2.Unescaped, "the record is marked as unescaped")
+	if bs {
+		sym.Reach("escaped")
+	} else {
+		sym.Reach("plain")
+	}
+}
